@@ -7,7 +7,6 @@ import (
 	"bytes"
 	"fmt"
 	"io"
-	"os"
 	"testing"
 
 	"github.com/256dpi/gomqtt/packet"
@@ -181,7 +180,7 @@ func TestCheck(t *testing.T) {
 		check(r, c, poison, i)
 	})
 	r.Set("cases_by_part", map[string]int{"total": len(cases)})
-	os.Exit(r.Finish(200))
+	h.Exit(r.Finish(200))
 }
 
 func viol(r *h.Run, key string, c tcase, msg string, refb []byte) {
